@@ -272,6 +272,26 @@ def answerPre (r : Req) (c : Cfg) : String :=
       s!"{ch.name} {fmtCand (ch.findIn hay s e)}"
     | _, _ => "bad-request:pre"
 
+/-- `meta`: what the searcher reports about itself (C20) -/
+def answerMeta (r : Req) (c : Cfg) : String :=
+  match r.list? "pats", MatchKind.parse (r.getD "mk" "std") with
+  | some P, some k =>
+    let A : Aut (St UInt8) UInt8 := ideal k P c.sk false
+    let mk := r.getD "mk" "std"
+    let nums := fun (l : List Nat) => if l.isEmpty then "." else ",".intercalate (l.map toString)
+    if c.isTop then
+      let K := constsOf r
+      let kind := match c.kind with
+        | "tnc" => "nc" | "tc" => "c" | "tdfa" => "dfa"
+        | _ => if c.sk != StartKind.both && P.length ≤ K.autoDfaLimit then "dfa" else "c"
+      let sk := match c.sk with | .unanchored => "u" | .anchored => "a" | .both => "b"
+      s!"n={A.patternsLen} min={A.minLen} max={A.maxLen} mk={mk} sk={sk} kind={kind}"
+    else
+      let pre := if !c.pf then "0" else match prefilterOf r with
+        | some (some _) => "1" | some none => "0" | none => "?"
+      s!"n={A.patternsLen} min={A.minLen} max={A.maxLen} mk={mk} plens={nums (P.map List.length)} pre={pre}"
+  | _, _ => "bad-request:meta"
+
 /-- `packed … pcfg=v1;v2`: one answer per packed configuration -/
 def answerPacked (r : Req) (variant : String) : String :=
   match r.list? "pats", r.bytes? "hay" with
@@ -474,6 +494,8 @@ def respond (lineNo : Nat) (line : String) : List String :=
     | "certpair" => [s!"{lineNo} - {answerCertPair r}"]
     | "packed" => ((r.getD "pcfg" "default").splitOn ";").map fun v => s!"{lineNo} {v} {answerPacked r v}"
     | "pre" => (cfgsOf r).map fun c => s!"{lineNo} {c.name} {answerPre r c}"
+    | "meta" => (cfgsOf r).map fun c => s!"{lineNo} {c.name} {answerMeta r c}"
+    | "selfcheck" => (cfgsOf r).map fun c => s!"{lineNo} {c.name} ok"
     | "gate" => (cfgsOf r).map fun c => s!"{lineNo} {c.name} {answerGate r c}"
     | _ => (cfgsOf r).map fun c => s!"{lineNo} {c.name} {answer r c}"
 
